@@ -278,6 +278,7 @@ def _mk_leaves():
     add(LiteralLeaf("Litab", 'Literal["a", "b"]', ["a", "b"]))
     add(LiteralLeaf("Lit1s1", 'Literal["1", 1]', ["1", 1]))
     add(LiteralLeaf("LitMix", 'Literal[True, "x", None]', [True, "x", None]))
+    add(LiteralLeaf("Lit0T", "Literal[0, True]", [0, True]))
 
     def struct(name, ctor, hashable=False):
         def vals(ns):
@@ -300,6 +301,7 @@ def _mk_leaves():
     add(struct("DCslots", kw))
     add(struct("DCkw", kw))
     add(struct("DCfrozen", kw, hashable=True))
+    add(struct("DCcall", kw))
     add(struct("NT", kw, hashable=True))
     add(struct("PC", kw, hashable=True))
     add(struct("SC", kw, hashable=True))
@@ -309,6 +311,24 @@ def _mk_leaves():
         t._cls = dict
         add(t)
     tdnr._required = ("a",)
+    tdpart = struct("TDpart", lambda c, a, b: {"a": a, "b": b})
+    tdpart._cls = dict
+    tdpart._required = ("a", "b")
+    tdpart.fields = (("a", L["int"]), ("b", L["str"]), ("c", L["int"]))
+    _op = tdpart._vals
+    tdpart._vals = lambda ns: _op(ns) + [{"a": 3, "b": "y", "c": 4}]
+    add(tdpart)
+    tdreq = struct("TDreq", lambda c, a, b: {"a": a, "b": b})
+    tdreq._cls = dict
+    tdreq._required = ("a",)
+    _oq = tdreq._vals
+    tdreq._vals = lambda ns: _oq(ns) + [{"a": 3}]
+    add(tdreq)
+    tditems = struct("TDitems", lambda c, a, b: {"items": a, "b": b})
+    tditems._cls = dict
+    tditems._required = ("items", "b")
+    tditems.fields = (("items", L["int"]), ("b", L["str"]))
+    add(tditems)
     _orig = tdnr._vals
 
     def tdnr_vals(ns):
@@ -327,10 +347,10 @@ LEAVES = _mk_leaves()
 
 def _struct_conforms(leaf, ns, x, strict=False):
     name = leaf.name
-    if name in ("TD", "TDnr"):
+    if leaf._cls is dict:
         if not isinstance(x, dict):
             return False
-        req = getattr(leaf, "_required", ("a", "b"))
+        req = ns[name].__required_keys__  # Python's own record of the required keys
         if not all(k in x for k in req):
             return False
         for f, t in leaf.fields:
